@@ -500,8 +500,12 @@ class Engine:
             # concrete iterable?
             res = []
             for p, fr, seq in self.eval(path, it, frame):
-                if is_sym(seq) or not isinstance(seq, (list, tuple, range)):
+                if is_sym(seq) or isinstance(seq, SObj):
                     raise Unsupported("for over a non-range, non-concrete iterable")
+                try:
+                    seq = list(seq)          # any concrete iterable (enumerate, zip, dict views, ...)
+                except TypeError:
+                    raise Unsupported("for over a non-iterable value")
                 states = [(p, fr, None)]
                 for item in seq:
                     nxt = []
